@@ -121,3 +121,14 @@ def native(value):
     if isinstance(value, decimal.Decimal):
         return "Decimal(%s)" % value
     return value
+
+
+def new_workbook(path):
+    """An xlsxwriter workbook with a fixed creation date, so that generated files are the same bytes on every run."""
+    import datetime
+
+    import xlsxwriter
+
+    workbook = xlsxwriter.Workbook(path)
+    workbook.set_properties({"created": datetime.datetime(2020, 1, 1, 0, 0, 0), "author": "cutplace-verif"})
+    return workbook
